@@ -15,12 +15,17 @@
      not see the record, a restart at that point reads it (the failed operation applied, no other key concerned), the
      repaired bookkeeping (6ff1d59) keeps "rows cover files", the pinned one loses the row — and the history of the
      finding, computed in the model, resurrects a deleted key under the pinned bookkeeping only.
+   - a merge pass that stops because the write of a HINT entry failed (theorems 10): with the repaired order of the loop
+     (97ca669: hint entry first, index entry afterwards) every index entry still lies in a file that exists and, where a
+     restart reads that file through its hint file, is listed there — for a failure at any entry of any pass from any
+     reachable state; the pinned order (index entry first) is refuted, and the history of the finding computed in the model
+     loses the key under the pinned order only.
    Not proved (decided by the one-fault sweeps of `bin/check C20`, level fault_enumeration, and for the failed fsync also
    by comparing the model's [failed_fsync] with the real store on every sweep case whose fault hit such an fsync): what a
    restart yields after the process has gone on behind a failed fsync or a failed rollover behind a completed append (a
    complete record that is on disk but not in the index), and after a merge pass that failed half-way. *)
 From BC Require Import Store.Engine Store.Log Store.Cons Store.Inv Store.Refine Store.Merge Store.Theorems
-  Store.Codec Store.CodecProofs Store.Crash Store.CrashScript Store.CrashMerge Store.FaultUnlink Store.FaultFsync Store.FaultContinue Store.FaultBytes.
+  Store.Codec Store.CodecProofs Store.Crash Store.CrashScript Store.CrashMerge Store.FaultUnlink Store.FaultFsync Store.FaultMerge Store.FaultContinue Store.FaultBytes.
 From Coq Require Import Lia.
 Open Scope N_scope.
 
@@ -270,3 +275,41 @@ Print Assumptions C20_failed_fsync_pinned_refuted.
 Example C20_failed_fsync_example : Inv ff_before /\ exists s' t, failed_fsync true ff_before [107] (Some [118]) = ROk (s', t).
 Proof. split; [exact ff_before_inv|]. vm_compute. eauto. Qed.
 
+
+(* 10. A merge pass whose copy loop stops because the write of a hint entry failed ([merge_fail_hint], Store/FaultMerge.v).
+       A restart reads a merge file through its hint file only; [reach_ok]: every index entry lies in a file that exists
+       and, if that file has a hint file, is listed there.  (a) every reachable state satisfies it; (b) with the repaired
+       order of the loop a failing hint write — after any number of entries went through, in any pass — keeps it; (c) the
+       pinned order breaks it, and (d) the history of the finding
+           set K v; set a 1; set a 2; merge (hint write of K fails); merge; restart; get K
+       loses K in the model under the pinned order and keeps it under the repaired one. *)
+Theorem C20_reachable_states_are_listed : forall s, Inv s -> reach_ok (s_dir s) (s_idx s).
+Proof. exact inv_reach_ok. Qed.
+Print Assumptions C20_reachable_states_are_listed.
+
+Theorem C20_failed_hint_write_keeps_entries_listed : forall row_first retried c s ord1 k s', reach_ok (s_dir s) (s_idx s) ->
+  merge_fail_hint false row_first retried c s ord1 k = ROk s' -> reach_ok (s_dir s') (s_idx s').
+Proof. exact hint_first_keeps_reach. Qed.
+Print Assumptions C20_failed_hint_write_keeps_entries_listed.
+
+Theorem C20_failed_hint_write_pinned_refuted :
+  fm_history true = VVal None /\ fm_history false = VVal (Some [118]) /\
+  match merge_fail_hint true true false fm_cfg fm_before [] [75] with
+  | ROk s' => exists l f, iget (s_idx s') [75] = Some l /\ dir_get (s_dir s') (l_fid l) = Some f /\ d_hint f = Some []
+  | _ => False
+  end.
+Proof. split; [exact pinned_order_loses_key|]. split; [exact repaired_order_keeps_key|exact pinned_order_breaks_reach]. Qed.
+Print Assumptions C20_failed_hint_write_pinned_refuted.
+
+(* (e) the order of the merge file's statistics row and its hint entry: the first repair (97ca669) wrote the hint entry
+       first; when the failing write was the first hint write of the pass and std's BufWriter wrote it out on drop, the
+       merge file listed a record without having a row, and the history
+           set k v; set k w; merge (first hint write fails, written out at drop); del k; merge; restart; get k
+       resurrected k — in the model and on the real store; with the row written first (a53a922) it does not. *)
+Theorem C20_failed_hint_write_row_first : fm2_history false = VVal (Some [119]) /\ fm2_history true = VVal None.
+Proof. split; [exact hint_before_row_resurrects|exact row_before_hint_does_not]. Qed.
+Print Assumptions C20_failed_hint_write_row_first.
+
+(* non-vacuity: the history starts from an invariant state and the failing pass is defined on it *)
+Example C20_failed_hint_example : Inv fm_before /\ exists s', merge_fail_hint false true false fm_cfg fm_before [] [75] = ROk s'.
+Proof. split; [exact fm_before_inv|]. vm_compute. eauto. Qed.
